@@ -48,8 +48,14 @@ def run(ctx, rep):
     circle_is_ellipse(prog, rep)
     c05.rounded(prog, rep)   # corner quadrant tables (R05.2): zero radii / half-side radii go through the same quadrants
     c05.circle(prog, rep)
+    c05.sector(prog, rep)    # Sector::contains / points measure the wedge from the same doubled centre as the circle (R05.1)
     plane_sector_tables(prog, rep)
     confine_sides(prog, rep)
+    try:
+        corner_search_whole_row(prog, rep)
+    except Exception as e:
+        import traceback; traceback.print_exc()
+        rep.fail("R18.9", "engine", "corner search analysis crashed: %r" % (e,), status="undecided")
     from rules import axis
     axis.run_for(ctx.program("default"), rep, 'R18.6', ['src/primitives/rounded_rectangle', 'src/primitives/circle', 'src/primitives/ellipse', 'src/primitives/arc', 'src/primitives/sector', 'src/primitives/common'], 'corner radii, quadrants and centres are computed per axis')
 
@@ -469,3 +475,44 @@ def confine_sides(prog, rep):
     rep.check(not bad and seen == set(sides) and scaled >= 4, "R18.7", "confine:sides",
               "CornerRadii::confine must measure the overlap of the radii along each of the four sides and scale all corners by box extent / radii sum of one side: %s"
               % ("; ".join(sorted(set(bad))[:3]) or "sides measured: %s, scaling paths: %d" % (sorted(seen), scaled)), at=f.span, fn=f.path, detail={"paths": len(summs), "sides": sorted(seen)})
+
+
+def corner_search_whole_row(prog, rep):
+    """R18.9 the rows of a rounded rectangle's point set are cut by searching the row for the first / last column inside
+    the corner ellipse.  A corner may be as wide as the rectangle (confine_corners only bounds the *sum* of two
+    neighbouring radii), so the search has to run over the rectangle's whole column range: every column iterator that
+    rounded_rectangle::points::Scanlines::next pulls from (searches walked once) is the `columns` range of the
+    RoundedRectangleContains, or a clone of it."""
+    SC = PRIM + "rounded_rectangle::points::Scanlines"
+    RC = PRIM + "rounded_rectangle::RoundedRectangleContains"
+    try:
+        nx = prog.method1(SC, "next", "core::iter::traits::iterator::Iterator")
+        fi = {f["name"]: i for i, f in enumerate(prog.adts[RC]["variants"][0]["fields"])}
+        holder = [i for i, f in enumerate(prog.adts[SC]["variants"][0]["fields"]) if isinstance(f["ty"], dict) and f["ty"].get("adt") == RC][0]
+        cols, rows = fi["columns"], fi["rows"]
+    except Exception as e:
+        rep.fail("R18.9", "rounded_rectangle:corner-search-row", "anchor lost: %r" % (e,), status="undecided")
+        return
+    subjects = {}
+    try:
+        summs = Paths(prog, inline=lambda g: prog.is_new(g), loops="once", limit=6000).of(nx)
+    except Unsupported as e:
+        rep.fail("R18.9", "rounded_rectangle:corner-search-row", "cannot summarise: %s" % e, status="undecided", at=nx.span, fn=nx.path)
+        return
+    for sm in summs:
+        for tr in [x for fc in sm.facts for x in fc[1:]] + [sm.ret] + [e_[1] if e_[0] == "call" else e_[2] for e_ in sm.effects]:
+            if not isinstance(tr, tuple) or not tr or not isinstance(tr[0], str):
+                continue
+            for n in walk(tr):
+                if isinstance(n, tuple) and n[0] == "call" and n[1].split("::")[-1] in ("next", "next_back", "nth", "nth_back", "find", "rfind", "position", "rposition") and n[3] and n[1].startswith("core::iter"):
+                    it = strip_refs(n[3][0])
+                    while it[0] == "call" and it[1].split("::")[-1] in ("into_iter", "by_ref", "clone") and len(it[3]) == 1:
+                        it = strip_refs(it[3][0])
+                    subjects[it] = n[1].split("::")[-1]
+    self_rc = ("field", P(1, "self"), holder)
+    want_cols, want_rows = ("field", self_rc, cols), ("field", self_rc, rows)
+    col_searches = {t: k for t, k in subjects.items() if t != want_rows}
+    bad = [show(t, maxd=5) for t in col_searches if t != want_cols]
+    rep.check(bool(col_searches) and not bad, "R18.9", "rounded_rectangle:corner-search-row",
+              "the first / last column of a rounded rectangle row must be searched over the rectangle's whole column range (a corner can be wider than half the rectangle); found a search over %s" % ("; ".join(sorted(bad)[:2]) or "nothing"),
+              at=nx.span, fn=nx.path, detail={"searched": sorted(show(t, maxd=4) for t in col_searches)})
